@@ -257,6 +257,8 @@ class LazyExtSet(list):
         return self
 
     def __contains__(self, name):
+        if list.__contains__(self, name):
+            return True
         if name in self.bools:
             v = bool(self.bools[name])
             self.asked.append((name, v))
